@@ -130,8 +130,13 @@ pub fn generate(o: &GenOpts) -> Vec<Sample> {
         for (c, b) in base.iter().enumerate() {
             let desc = !o.pansn && (o.seed + c as u64) % 3 == 0;
             let name = cname(o, &sn, c, desc);
+            // manysamples: a few late samples are exact copies of the sample two places earlier, so that a group whose first pack
+            // (50 deltas) is already complete receives a delta that is byte-identical to one sitting in its open second pack
+            let copy_of = if o.kind == "manysamples" && i >= 53 && i % 3 == 2 { Some(i - 2) } else { None };
             let mut seq = if i == 0 {
                 b.clone()
+            } else if let Some(j) = copy_of.filter(|&j| c < samples[j].contigs.len()) {
+                samples[j].contigs[c].seq.clone()
             } else {
                 let (snp, indel, nrun, iu) = match o.kind.as_str() {
                     "dup" | "trunc" => (0.0, 0.0, 0.0, 0.0),
